@@ -256,8 +256,9 @@ def check(ctx: Ctx) -> list[RuleResult]:
     ok_d = False
     for n in own_nodes(dec.node):
         if isinstance(n, ast.Compare) and len(n.ops) == 1 and isinstance(n.ops[0], (ast.NotEq, ast.Eq)):
-            l, r = norm(n.left), norm(n.comparators[0])
-            if l == "int(frame[:2], 16) // 128" and r == "parity(int(frame, 16) & 2147483647)":
+            # compared after copy propagation (a hoisted `first_byte = int(frame[:2], 16)` is the same expression), either way round
+            sides = {norm(_expand(dec.node, n.left, pure_only=False)), norm(_expand(dec.node, n.comparators[0], pure_only=False))}
+            if sides & {"int(frame[:2], 16) // 128", "int(frame[:2], 16) >> 7", "int(frame, 16) >> 31"} and "parity(int(frame, 16) & 2147483647)" in sides:
                 ok_d = True
     if ok_b and ok_d:
         r5.ok({"builder_sets": "byte 0 = 0x80 iff parity(msg_id), all other fields equal", "decoder_tests": "bit 31 == parity(low 31 bits)"})
